@@ -91,12 +91,6 @@ def report_crash(run, m, line, meta, info, layer):
         run.known_finding("C04-generated-alphabet-shift", line)
         run.count("known_C04-generated-alphabet-shift")
         return
-    # an abort prints no sanitizer frames: the assertion text is what there is
-    if rc == -6 and meta["syn"] == "xer" and "OCTET_STRING__convert_entrefs" in (err or "") and "Assertion" in (err or "") and "val > 0" in (err or "") \
-            and re.search(rb"&#x?0*;", meta.get("data") or b""):
-        run.known_finding("C04-xer-charref-zero-assert", line)
-        run.count("known_C04-xer-charref-zero-assert")
-        return
     how = "did not terminate within its CPU budget (hang)" if rc == 99 else "died (rc=%s, %s): sanitizer report, abort or signal" % (rc, what)
     run.violation("crash:%s:%s" % (layer, (site[0] if site else what)),
                   {"what": "decoder process %s on a %s input" % (how, meta["kind"]),
